@@ -22,3 +22,54 @@ macro_rules! info { ($($t:tt)*) => {{}}; }
 macro_rules! warn { ($($t:tt)*) => {{}}; }
 #[macro_export]
 macro_rules! error { ($($t:tt)*) => {{}}; }
+
+// ---- additional surface used by crates/polytune-server-core (spans are inert)
+#[derive(Clone, Debug, Default)]
+pub struct Span;
+impl Span {
+    pub fn record<V>(&self, _field: &str, _value: V) -> &Self {
+        self
+    }
+    pub fn or_current(self) -> Self {
+        self
+    }
+    pub fn current() -> Self {
+        Span
+    }
+    pub fn none() -> Self {
+        Span
+    }
+    pub fn in_scope<F: FnOnce() -> T, T>(&self, f: F) -> T {
+        f()
+    }
+    pub fn enter(&self) -> Entered {
+        Entered
+    }
+    pub fn entered(self) -> Entered {
+        Entered
+    }
+}
+pub struct Entered;
+pub mod field {
+    #[derive(Clone, Copy, Debug)]
+    pub struct Empty;
+}
+pub trait Instrument: Sized {
+    fn instrument(self, _span: Span) -> Self {
+        self
+    }
+    fn in_current_span(self) -> Self {
+        self
+    }
+}
+impl<T> Instrument for T {}
+#[macro_export]
+macro_rules! trace_span { ($($t:tt)*) => {{ $crate::Span }}; }
+#[macro_export]
+macro_rules! debug_span { ($($t:tt)*) => {{ $crate::Span }}; }
+#[macro_export]
+macro_rules! info_span { ($($t:tt)*) => {{ $crate::Span }}; }
+#[macro_export]
+macro_rules! warn_span { ($($t:tt)*) => {{ $crate::Span }}; }
+#[macro_export]
+macro_rules! error_span { ($($t:tt)*) => {{ $crate::Span }}; }
